@@ -101,7 +101,8 @@ def rule_bind_ownership(em, rep, rid):
                 else:
                     rep.violation(rid + 'a', key, 'the binding cell of a variable is written outside %s (bindings made '
                                   'here are not undone by the binder\'s finally)' % var.qname, f.loc(n))
-            if isinstance(n, ast.Call) and is_name(n.func, 'setattr') and len(n.args) >= 2:
+            if isinstance(n, ast.Call) and is_name(n.func, 'setattr') and len(n.args) >= 2 and f.module.name == 'engine':
+                # (only the engine module handles variables: the command line sets its options with setattr)
                 names = _possible_strings(em, f, n.args[1])
                 if names is None or names & set(CELLF):
                     rep.violation(rid + 'a', '%s:%s' % (f.qname, norm(n)), 'setattr may write the binding cell', f.loc(n))
